@@ -286,6 +286,10 @@ def shard_g2(sctx, n):
             # line ends, so the comparison is exact modulo whitespace
             if e != g:
                 why = "write_lines text differs: expected %r got %r" % (e, g)
+        if why is None and any(ch in out for ch in "\t\f\r"):
+            # the break hints are directions to the writer, never part of the text it writes
+            why = "hint-in-output: a break hint character (%s) reaches the written text" % ", ".join(
+                repr(ch) for ch in "\t\f\r" if ch in out)
         if why is None:
             # column-one directives
             for x in lines:
